@@ -61,6 +61,33 @@ def impl_file(desc):
     except Exception as e:
         return 'err build', 'skip', f'harness could not build the file: {type(e).__name__}: {e}'
     storable, why = storable_ref(desc)
+    if storable and mid.tracks and (desc['tpb'] + 2 * len(desc['tracks'])) % 3 == 0:
+        # "save fails, fix the file, save again" on the SAME MidiFile object: a save refused part-way through a track (a
+        # real-time message behind storable events, a text the charset cannot encode, an output file that fails) must leave
+        # nothing behind in the object
+        k = desc['tpb'] % len(mid.tracks)
+        tr = mid.tracks[k]
+        pos = len(tr) // 2 + (1 if len(tr) else 0)
+        bad = [mido.Message('clock'), mido.MetaMessage('text', text='\u20ac\u4e2d')][desc['tpb'] % 2]
+        tr.insert(min(pos, len(tr)), bad)
+        try:
+            save_bytes(mid)
+        except Exception:
+            pass
+        tr.remove(bad)
+
+        class _Full:
+            def __init__(self, n):
+                self.n = n
+
+            def write(self, b):
+                self.n -= len(b)
+                if self.n < 0:
+                    raise OSError('disk full')
+        try:
+            mid.save(file=_Full(14 + 8 + desc['tpb'] % 7))
+        except OSError:
+            pass
     try:
         data = save_bytes(mid)
     except Exception as e:
